@@ -334,6 +334,9 @@ def gen_cases(kind, seed, n):
         elif kind == "c09":
             wmode = r.pick(["nan", "real", "real"])
             ops = gen_mutations(r, names, 2 + r.below(9), wmode=wmode, collide=45)
+            if wmode == "real" and r2.below(100) < 25:
+                # weights that cancel (negative and zero weights): a node whose adjacent weights sum to exactly 0
+                ops, wmode = resign(r2, ops), "signed"
             cases.append(scaled({"id": "h%d" % i, "spec": sp, "snap_each": False,
                                  "ops": ops + [("view",)] + degree_battery(r, names)}, wmode))
         elif kind == "c15":
